@@ -463,7 +463,9 @@ func match(pattern ast.Atom, subst *unionfind.UnionFind) (bool, *unionfind.Union
 		if !ok || name.Type != ast.NameType {
 			return false, nil, nil
 		}
-		return strings.HasPrefix(name.Symbol, pat.Symbol) && len(name.Symbol) > len(pat.Symbol), subst, nil
+		// The names of the prefix type /foo are /foo/bar, /foo/bar/baz, ...;
+		// /foobar is not one of them.
+		return strings.HasPrefix(name.Symbol, pat.Symbol+"/"), subst, nil
 
 	case symbols.StartsWith.Symbol:
 		if len(pattern.Args) != 2 {
